@@ -329,5 +329,8 @@ func smallTrees() []*Node {
 		nArr(nArr(nObj("a", i(1)), i(2)), nObj("a", nArr(nObj("a", i(2)), nObj("b", i(1)))), i(2)),
 		nObj("a", nArr(nObj("a", i(1), "b", i(2)), nObj("a", i(3))), "b", nArr(nObj("a", i(1)))),
 		nArr(nArr(i(0), i(1), i(2), i(3)), nArr(nArr(i(2), i(3)), nArr(i(1)))),
+		// a One form must go on past a parent that lacks the final member
+		nArr(nObj("b", i(3)), nObj("a", i(1), "b", i(2))),
+		nArr(nArr(), nArr(i(1)), nObj("c", i(1)), nObj("a", i(2))),
 	}
 }
